@@ -38,7 +38,7 @@ class Info:
         self.frozen = frozen
         self.eq = eq
         self.order = order
-        self.gs = gs  # user __getstate__/__setstate__ present
+        self.gs = tuple(gs) if not isinstance(gs, bool) else (("__getstate__", "__setstate__") if gs else ())  # user hooks declared
         self.want_dict = want_dict
         self.want_weakref = want_weakref
         self.plain_default = plain_default  # {name: default value} for kind 'd'
@@ -131,8 +131,10 @@ def patterns(params):
 
 
 def _fresh(x):
-    """argument values are rebuilt per call so that no list is shared between the two worlds"""
-    return copy.deepcopy(x)
+    """argument values are rebuilt per call so that no list is shared between instances or worlds"""
+    if type(x) is dict:
+        return {k: (list(v) if type(v) is list else v) for k, v in x.items()}
+    return tuple(list(v) if type(v) is list else v for v in x)
 
 
 # ---------------------------------------------------------------- observation helpers
@@ -155,6 +157,11 @@ def _has_dict(inst):
     except Exception as e:  # noqa: BLE001
         return "broken:" + type(e).__name__
     return True
+
+
+def _hook_calls(o_mod, s_mod):
+    """((getstate calls, setstate calls) in the o-world, same in the s-world) - the synthesised hooks count themselves"""
+    return tuple((len(getattr(m, "GETSTATE_CALLS", ())), len(getattr(m, "SETSTATE_CALLS", ()))) for m in (o_mod, s_mod))
 
 
 def _kind(o):
@@ -407,6 +414,17 @@ def judge(OC, SC, info: Info, o_mod=None, s_mod=None, full=True, count=None):  #
         elif not exp_dict and not (r[0] == "raises" and r[1] == "AttributeError"):
             bad("setattr", "undeclared:" + _kind(r), f"no __dict__ requested or inherited but setattr(instance, 'tlmc_undeclared', 1): {_kind(r)} (expected AttributeError)")
 
+    # ---- user __getstate__/__setstate__ kept
+    replaced = set()
+    if info.gs:
+        cnt("getstate", len(info.gs))
+        for m in info.gs:
+            f = SC.__dict__.get(m)
+            fo = OC.__dict__.get(m)
+            if f is None or getattr(f, "__qualname__", None) != fo.__qualname__ or getattr(getattr(f, "__code__", None), "co_code", None) != fo.__code__.co_code:
+                replaced.add(m)
+                bad("getstate", "user-method-replaced:" + m, f"{m} of S is {f!r}, not the user's method")
+
     # ---- copy / deepcopy / pickle (fresh instances; an extra __dict__ attribute where both worlds have a __dict__)
     targets = [("pos:A", pats[0][1])]
     if "omit:A" in labs:
@@ -425,8 +443,7 @@ def judge(OC, SC, info: Info, o_mod=None, s_mod=None, full=True, count=None):  #
             sfx = "(attribute-in-instance-dict)"
         for pi, (opname, op) in enumerate(ops):
             cnt(opname)
-            n_set = len(getattr(s_mod, "SETSTATE_CALLS", ())) if s_mod is not None else 0
-            n_get = len(getattr(s_mod, "GETSTATE_CALLS", ())) if s_mod is not None else 0
+            calls0 = _hook_calls(o_mod, s_mod)
             ro = _obs(op, xo)
             if ro[0] != "ok":
                 raise OriginalFails(f"slotmodel: {opname} of the ORIGINAL instance fails: {ro}")
@@ -452,16 +469,11 @@ def judge(OC, SC, info: Info, o_mod=None, s_mod=None, full=True, count=None):  #
                     bad(opname, "aliasing" + sfx, f"{wit}: list field {n} shared={sh_s} for S but {sh_o} for C")
             if with_attr and getattr(y, "tlmc_extra", _MISSING) != getattr(yo, "tlmc_extra", _MISSING):
                 bad(opname, "dict-state", f"{wit}: the attribute is {getattr(y, 'tlmc_extra', '<lost>')!r} afterwards for S but {getattr(yo, 'tlmc_extra', '<lost>')!r} for C")
-            if info.gs and s_mod is not None:
-                if len(s_mod.SETSTATE_CALLS) == n_set or len(s_mod.GETSTATE_CALLS) == n_get:
-                    bad("getstate", "user-methods-not-used", f"{tag}: the user's __getstate__/__setstate__ were not called")
+            if info.gs and s_mod is not None and o_mod is not None:
+                calls1 = _hook_calls(o_mod, s_mod)
+                for hi, m in enumerate(("__getstate__", "__setstate__")):
+                    used_o, used_s = calls1[0][hi] > calls0[0][hi], calls1[1][hi] > calls0[1][hi]
+                    if m in info.gs and m not in replaced and used_o and not used_s:
+                        bad("getstate", "user-method-not-used:" + m, f"{wit}: the user's {m} runs for C but not for S")
 
-    # ---- user __getstate__/__setstate__ kept
-    if info.gs:
-        cnt("getstate", 2)
-        for m in ("__getstate__", "__setstate__"):
-            f = SC.__dict__.get(m)
-            fo = OC.__dict__.get(m)
-            if f is None or getattr(f, "__qualname__", None) != fo.__qualname__ or getattr(getattr(f, "__code__", None), "co_code", None) != fo.__code__.co_code:
-                bad("getstate", "user-method-replaced", f"{m} of S is {f!r}, not the user's method")
     return V
